@@ -1,6 +1,7 @@
 """C18 -- file I/O (DESIGN 5/C18): real io.c against nondeterministic libpng / stdio stubs."""
+REPLAYABLE = False  # stubs / instrumented program: counterexamples are reported from the solver trace, not re-linked against gcc
 BOUNDS = {
- "quick": "PNG round trip: A symbolic, ncols 1..72 (every residue class mod 8 and mod 64) and {127,128,129,130}, nrows in {1,2}, compression level symbolic; malformed PNG: every bit depth {1,2,4,8,16} x colour type {0,2,3,4,6} (valid IHDR combinations) x interlace, arbitrary row bytes of the contract length, create/read failures, for widths {1,8,9,64,70}; JCF: arbitrary p / nonzero fields and <= 4 arbitrary index tokens for 1x1, 2x3, 3x70; mzd_from_str: arbitrary characters 2x3, 3x70, 1x64",
+ "quick": "PNG round trip: A symbolic, ncols 1..72 (every residue class mod 8 and mod 64) and {127,128,129,130}, nrows in {1,2}, compression level symbolic; malformed PNG: every valid (bit depth, colour type) combination (15, enumerated) x interlace flag, each early failure (short read, bad signature, struct creation failure) as its own query, arbitrary row bytes of the contract length, create/read failures, for widths {1,9,70}; JCF: arbitrary p / nonzero fields and <= 4 arbitrary index tokens for 1x1, 2x3, 3x70; mzd_from_str: arbitrary characters 2x3, 3x70, 1x64",
  "thorough": "round trip up to 3 rows and all widths 1..130; JCF 6 tokens; bad header return values",
 }
 OUTSIDE = "real file bytes, zlib / libpng internals (their documented contracts are the stubs), truncated-file behaviour inside libpng (modelled as 'png_read_info may end the process')"
@@ -16,8 +17,14 @@ def plan(tier, seed):
         for h in ((1, 2) if not T else (1, 3)):
             if not T and h == 2 and w not in (7, 8, 9, 64, 65, 130): continue
             qs.append(Q("pngrt-%dx%d" % (h, w), "c18.c", {"H_PNGRT": None, "PH": h, "PW": w}, group="c18-pngrt", checks="safety", timeout=900, fallback="z3"))
-    for w in (1, 8, 9, 64, 70):
-        qs.append(Q("pngbad-2x%d" % w, "c18.c", {"H_PNGBAD": None, "PH": 2, "PW": w}, group="c18-pngbad", checks="safety", timeout=900, fallback="kissat"))
+    combos = [(d, 0) for d in (1, 2, 4, 8, 16)] + [(d, 3) for d in (1, 2, 4, 8)] + [(d, c) for c in (2, 4, 6) for d in (8, 16)]
+    for w in ((1, 9, 70) if not T else (1, 8, 9, 64, 70)):
+        for (d, c) in combos:
+            qs.append(Q("pngbad-2x%d-d%d-c%d" % (w, d, c), "c18.c", {"H_PNGBAD": None, "PH": 2, "PW": w, "PDEPTH": d, "PCOLOR": c, "PINTERLACE": 0}, group="c18-pngbad", checks="safety", timeout=600,
+                        unwindset={"mzd_from_png": 12}))  # after an out-of-bounds row write CBMC's memory is arbitrary: keep symex finite so the write itself is reported
+    for f in ("FAIL_FREAD", "FAIL_SIG", "FAIL_CREATE", "FAIL_INFO"):
+        qs.append(Q("pngbad-%s" % f.lower(), "c18.c", {"H_PNGBAD": None, "PH": 2, "PW": 9, "PDEPTH": 1, "PCOLOR": 0, "PINTERLACE": 0, f: None}, group="c18-pngbad", checks="safety", timeout=600, unwindset={"mzd_from_png": 12}))
+    qs.append(Q("pngbad-interlaced", "c18.c", {"H_PNGBAD": None, "PH": 2, "PW": 9, "PDEPTH": 1, "PCOLOR": 0, "PINTERLACE": 1}, group="c18-pngbad", checks="safety", timeout=600, unwindset={"mzd_from_png": 12}))
     for (h, w) in [(1, 1), (2, 3), (3, 70)]:
         qs.append(Q("jcf-%dx%d" % (h, w), "c18.c", {"H_JCF": None, "PH": h, "PW": w, "NTOK": 4 if not T else 6}, group="c18-jcf", checks="safety", timeout=900, fallback="kissat",
                     unwindset={"mzd_from_jcf": 8}))
